@@ -110,6 +110,7 @@ fn dispatch(st: &mut State, line: &str) -> String {
         "cert" => misc::cmd_cert(rest),
         "signer" => crypto::cmd_signer(rest),
         "verify" => crypto::cmd_verify(rest),
+        "verifyseq" => crypto::cmd_verifyseq(rest),
         "edsign" => crypto::cmd_edsign(rest),
         "edpk" => crypto::cmd_edpk(rest),
         "edverify" => crypto::cmd_edverify(rest),
